@@ -126,6 +126,21 @@ class TypedReading:  # not a supported field type: building the metadata is an e
     value: Optional[Celsius] = field(default=None, metadata={"type": "Element"})
 
 
+@dataclass
+class ThirdParty:  # a plain dataclass of some other library: not a binding model (unsupported annotation), indexed all the same
+    table: Dict[str, Dict[str, int]] = field(default_factory=dict)
+    host: Optional[str] = None
+
+
+@dataclass
+class Prefs:  # a binding model that shares its qualified name with the class above, defined after it
+    class Meta:
+        name = "ThirdParty"
+
+    host: Optional[str] = field(default=None, metadata={"type": "Element"})
+    port: Optional[int] = field(default=None, metadata={"type": "Element"})
+
+
 # --- the known-finding trigger (kept out of the main operation pool) -------------------------
 @dataclass
 class Shared:
